@@ -122,7 +122,13 @@ func (c *Check) respondRules(prefix string) {
 	nOK := 0
 	bad := map[string][]string{}
 	add := func(k, msg string, pa *Path) { bad[k] = append(bad[k], msg+" (path ending "+c.pos(pa.RetPos)+")") }
+	// a rejection reverts the message that caused it (A-SDK) provided every caller hands the error on; the state
+	// changes made before a rejecting return then never persist
+	reverts := c.errorAlwaysPropagated(f)
 	for _, pa := range c.P.PathsOf(f) {
+		if !pa.OK() && reverts {
+			continue
+		}
 		if !pa.OK() {
 			// rejecting paths must precede all effects
 			for _, e := range c.pathEffects(f, pa) {
@@ -783,4 +789,37 @@ func elemNorm(t *Term) *Term {
 		na[i] = elemNorm(a)
 	}
 	return &Term{Op: t.Op, A: na, Typ: t.Typ, Obj: t.Obj, Pos: t.Pos}
+}
+
+// errorAlwaysPropagated: every caller of f (in the module's hand-written code) that observes f's error returns an
+// error itself or panics on each path where f failed, and no caller ignores the error.
+func (c *Check) errorAlwaysPropagated(f *Func) bool {
+	n := 0
+	for _, g := range c.handFuncs("keeper", "service") {
+		for _, pa := range c.P.PathsOf(g) {
+			for _, ev := range pa.Events {
+				if ev.Kind != EvCall || ev.CI.fn != f {
+					continue
+				}
+				n++
+				failed, decided := false, false
+				for _, fa := range pa.AllFacts() {
+					if fa.T.Op == "ok" && len(fa.T.A) == 1 && fa.T.A[0].Op == f.Name {
+						decided = true
+						failed = fa.Neg
+					}
+				}
+				if !decided {
+					if pa.Exit == ExitMaybe && len(pa.Ret) > 0 && pa.Ret[len(pa.Ret)-1].ContainsOp(f.Name) {
+						continue // tail call: the error is the caller's own result
+					}
+					return false // the error is not looked at on this path
+				}
+				if failed && pa.Exit != ExitRevert && pa.Exit != ExitPanic {
+					return false
+				}
+			}
+		}
+	}
+	return n > 0
 }
